@@ -17,7 +17,8 @@ LEVEL_TEXT = ('Static decision of the structural necessary conditions: on every 
               'regular iteration only queue contents, characteristics, the recalculation flag and the accuracy are '
               'written; every recording effect (counters, z/index, optimum, insertion) comes after the call; a trial is '
               'completely recorded before the next objective call starts (first iteration included); no routine of the evaluation chain is '
-              'handed as a callable value to an iterator-consuming callable (map, filter, key=...).')
+              'handed as a callable value to an iterator-consuming callable (map, filter, key=...); the stop '
+              'notification of the shipped listeners never formats None with a format specification.')
 EXPLANATION = ('The solve driver is explored with the chain down to the Problem.Calculate call site inlined and an '
                'exceptional continuation forked at that call (exception type unknown: a handler narrower than '
                'BaseException lets a copy of the path propagate). Effects before the call are classified from the '
